@@ -24,7 +24,7 @@ func gConfigs() []gconfig {
 	for k := 1; k <= 2; k++ {
 		cs = append(cs, gconfig{Sender: true, SendFailAt: k}, gconfig{Sender: true, GateableAt: k})
 	}
-	cs = append(cs, gconfig{Sender: false, GateableAt: 1})
+	cs = append(cs, gconfig{Sender: false, GateableAt: 1}, gconfig{Sender: true, DefaultExp: true})
 	return cs
 }
 
@@ -53,7 +53,7 @@ func genRandomHistory(r *rt.Rand, n int) []gstep {
 }
 
 func randConfig(r *rt.Rand) gconfig {
-	c := gconfig{Sender: r.Intn(4) > 0}
+	c := gconfig{Sender: r.Intn(4) > 0, DefaultExp: r.Intn(4) == 0}
 	switch r.Intn(5) {
 	case 0:
 		c.ComposeFailAt = r.Range(1, 12)
